@@ -345,10 +345,20 @@ def classifyGlyphs(unicodeFunc, cmap, gsub=None, extra_substitutions=None):
 
     if extra_substitutions:
         for glyphs in glyphSets.values():
-            to_append = set()
-            for glyph in glyphs:
-                to_append |= extra_substitutions.get(glyph, set())
-            glyphs.update(to_append)
+            # keep going until nothing new is reachable: a substitute may itself
+            # be substituted again, by another extra substitution or by GSUB
+            while True:
+                to_append = set()
+                for glyph in glyphs:
+                    to_append |= extra_substitutions.get(glyph, set())
+                to_append -= glyphs
+                if not to_append:
+                    break
+                glyphs.update(to_append)
+                if gsub is not None:
+                    s = glyphs | neutralGlyphs
+                    closeGlyphsOverGSUB(gsub, s)
+                    glyphs.update(s - neutralGlyphs)
 
     return glyphSets
 
